@@ -248,6 +248,11 @@ Inductive c06_defect :=
   | D6NestedOneofAmbiguous   (* generator.go:370-477: oneOf branches with optional properties only *)
   | D6FlatOneofUnset         (* generator.go:301-352: every branch requires the discriminator *)
   | D6Wire (d : c05_defect)  (* the wire form is not the documented form the schema describes (C05) *)
+  | D6NullableEnum           (* types.go:81-100 makeNullableSchema: "null" is appended to `type` but not to `enum`, so the null
+                                the server writes for an unset nullable enum field matches no enum member *)
+  | D6FlattenChildOneof      (* flatten / flattened oneof variant: the parent's schema inlines the child's own properties one by one; a child
+                                with a discriminated oneof or a flatten field of its own is written in its codec form (discriminator +
+                                variant, grandchild fields inlined), properties the schema does not describe *)
   | D6MarkerKey.             (* model limit: a field or map key spelled like the float marker of the canonical JSON *)
 
 Definition c06_defect_str (d : c06_defect) : str :=
@@ -259,6 +264,8 @@ Definition c06_defect_str (d : c06_defect) : str :=
   | D6NestedOneofAmbiguous => s "nested-oneof-ambiguous"
   | D6FlatOneofUnset => s "flattened-oneof-unset-matches-no-branch"
   | D6Wire d => c05_defect_str d
+  | D6NullableEnum => s "nullable-enum-null-not-in-enum"
+  | D6FlattenChildOneof => s "flatten-child-discriminated-oneof-undescribed"
   | D6MarkerKey => s "model:float-marker-key"
   end.
 
@@ -305,6 +312,24 @@ Definition oneof_member_set (md : message) (o : oneof) (m : mval) : bool :=
 Definition msg_issues (md : message) (m : mval) : list c06_defect :=
   (if comp_ok sc sd cs (m_name md) then [] else [D6ShortNameCollision]) ++
   (if existsb (fun f => is_marker (json_name (f_name f))) (m_fields md) then [D6MarkerKey] else []) ++
+  (if existsb (fun f => match f_nullable f, f_kind f, f_card f, mget m (f_name f) with
+                        | Some true, KEnum _, Optional, None => true
+                        | _, _, _, _ => false end) (m_fields md) then [D6NullableEnum] else []) ++
+  (* a child that is INLINED into this message's object (flatten field, variant of a flattened discriminated oneof) and
+     whose own JSON form is reshaped by a codec of its own (discriminated oneof with a member set, flatten field set):
+     the schema of this message inlines the child's declared properties one by one *)
+  (let shaped (c : str) (sub : mval) : bool :=
+     match find_message (all_messages sc) c with
+     | Some cm =>
+         existsb (fun o => existsb (fun g => match mget sub (f_name g) with Some _ => true | None => false end) (variants cm o)) (disc_oneofs cm) ||
+         existsb (fun g => is_flatten_field g && match mget sub (f_name g) with Some _ => true | None => false end) (m_fields cm)
+     | None => false
+     end in
+   if existsb (fun f => match f_kind f, mget m (f_name f) with
+                        | KMessage c, Some (FM sub) =>
+                            (is_flatten_field f ||
+                             existsb (fun o => o_flatten o && OpenApi.in_oneof o f) (disc_oneofs md)) && shaped c sub
+                        | _, _ => false end) (m_fields md) then [D6FlattenChildOneof] else []) ++
   match root_unwrap_field md with
   | Some _ => []
   | None =>
